@@ -3,6 +3,7 @@ package main
 import (
 	"fmt"
 	"go/ast"
+	"go/constant"
 	"go/token"
 	"go/types"
 	"sort"
@@ -368,6 +369,8 @@ func csvWriterReuse(c *Ctx) {
 
 func csvWriterConfig(c *Ctx) {
 	csvWriterReuse(c)
+	tmpWriterFlushed(c)
+	csvSoleWriter(c)
 	nW := 0
 	for _, fn := range c.srcFuncs("interp") {
 		var writes []*ssa.Call
@@ -476,4 +479,313 @@ func csvWriterConfig(c *Ctx) {
 		}
 	}
 	c.atLeast("csv.Writer.Write call sites", nW, 1)
+}
+
+// tmpWriterFlushed: a function that wraps the destination it is handed (an io.Writer parameter) in a buffered writer of
+// its own (bufio.NewWriter*/Reset on a scratch writer) and does not hand that writer out must flush it on every path
+// that can report success: what stays in the scratch buffer is dropped by the next Reset, or never written at all.
+// Paths are enumerated with the phi edges taken, so `flush = w.Flush` bound on the wrapping branch and
+// `if flush != nil { return flush() }` at the end is followed exactly.
+func tmpWriterFlushed(c *Ctx) {
+	n := 0
+	for _, fn := range c.srcFuncs("interp") {
+		fn := fn
+		// results: only errors (the writer does not leave through the result)
+		res := fn.Signature.Results()
+		onlyErr := res.Len() > 0
+		for i := 0; i < res.Len(); i++ {
+			if types.TypeString(res.At(i).Type(), nil) != "error" {
+				onlyErr = false
+			}
+		}
+		if !onlyErr {
+			continue
+		}
+		isWriterParam := func(v ssa.Value) bool {
+			for d := 0; d < 3; d++ {
+				switch x := v.(type) {
+				case *ssa.ChangeInterface:
+					v = x.X
+					continue
+				case *ssa.Parameter:
+					_, isIface := x.Type().Underlying().(*types.Interface)
+					return isIface
+				}
+				break
+			}
+			return false
+		}
+		wraps := map[ssa.Instruction]bool{}
+		allInstrs(fn, func(in ssa.Instruction) {
+			call, ok := in.(*ssa.Call)
+			if !ok {
+				return
+			}
+			f := calleeObj(call)
+			if f == nil {
+				return
+			}
+			switch funcFullName(f) {
+			case "bufio.NewWriter", "bufio.NewWriterSize":
+				if len(call.Call.Args) > 0 && isWriterParam(call.Call.Args[0]) {
+					wraps[in] = true
+				}
+			case "(*bufio.Writer).Reset":
+				if len(call.Call.Args) > 1 && isWriterParam(call.Call.Args[1]) {
+					wraps[in] = true
+				}
+			}
+		})
+		if len(wraps) == 0 {
+			continue
+		}
+		n++
+		key := "csv-writer:tmp-flush:" + fnKey(fn)
+		isFlushFn := func(v ssa.Value) bool {
+			switch x := v.(type) {
+			case *ssa.MakeClosure:
+				if f, ok := x.Fn.(*ssa.Function); ok {
+					return strings.HasPrefix(f.Name(), "Flush$bound") || f.Name() == "Flush$bound"
+				}
+			case *ssa.Function:
+				return x.Name() == "Flush"
+			}
+			return false
+		}
+		type pstate struct {
+			wrapped, flushed bool
+		}
+		bad := token.NoPos
+		paths := 0
+		var walk func(b, from *ssa.BasicBlock, phis map[*ssa.Phi]ssa.Value, st pstate, visits map[*ssa.BasicBlock]int)
+		resolve := func(v ssa.Value, phis map[*ssa.Phi]ssa.Value) ssa.Value {
+			for d := 0; d < 4; d++ {
+				if ph, ok := v.(*ssa.Phi); ok {
+					if r, ok := phis[ph]; ok {
+						v = r
+						continue
+					}
+				}
+				break
+			}
+			return v
+		}
+		walk = func(b, from *ssa.BasicBlock, phis map[*ssa.Phi]ssa.Value, st pstate, visits map[*ssa.BasicBlock]int) {
+			if paths > 20000 || visits[b] >= 2 {
+				return
+			}
+			visits[b]++
+			defer func() { visits[b]-- }()
+			np := phis
+			copied := false
+			for _, in := range b.Instrs {
+				switch x := in.(type) {
+				case *ssa.Phi:
+					if !copied {
+						np = map[*ssa.Phi]ssa.Value{}
+						for k, v := range phis {
+							np[k] = v
+						}
+						copied = true
+					}
+					for i, p := range b.Preds {
+						if p == from {
+							np[x] = resolve(x.Edges[i], phis)
+						}
+					}
+				case *ssa.Call:
+					if wraps[in] {
+						st.wrapped = true
+					}
+					if f := calleeObj(x); f != nil && funcFullName(f) == "(*bufio.Writer).Flush" {
+						st.flushed = true
+					} else if x.Call.StaticCallee() == nil && !x.Call.IsInvoke() && isFlushFn(resolve(x.Call.Value, np)) {
+						st.flushed = true
+					}
+				case *ssa.Return:
+					paths++
+					if !st.wrapped || st.flushed {
+						return
+					}
+					// an error return: the value is known to be non-nil here (the block is the non-nil edge of a test of it), or is built as an error
+					for _, r := range x.Results {
+						if types.TypeString(r.Type(), nil) != "error" {
+							continue
+						}
+						isErr := false
+						if _, isMk := r.(*ssa.MakeInterface); isMk {
+							isErr = true
+						}
+						if call, isCall := r.(*ssa.Call); isCall {
+							if cal := call.Call.StaticCallee(); cal != nil && (cal.Name() == "newError" || cal.Name() == "Errorf" || cal.Name() == "New") {
+								isErr = true
+							}
+						}
+						if from != nil && len(from.Instrs) > 0 {
+							if iff, ok := from.Instrs[len(from.Instrs)-1].(*ssa.If); ok {
+								if bo, ok := iff.Cond.(*ssa.BinOp); ok {
+									other := ssa.Value(nil)
+									if bo.X == r || resolve(bo.X, np) == resolve(r, np) {
+										other = bo.Y
+									} else if bo.Y == r {
+										other = bo.X
+									}
+									if k, isC := other.(*ssa.Const); isC && k.Value == nil {
+										if (bo.Op == token.NEQ && from.Succs[0] == b) || (bo.Op == token.EQL && from.Succs[1] == b) {
+											isErr = true
+										}
+									}
+								}
+							}
+						}
+						if !isErr && bad == token.NoPos {
+							bad = posOr(x.Pos(), fn.Pos())
+						}
+					}
+					return
+				case *ssa.If:
+					// a test of a function value against nil with the phi edges taken is decided
+					if bo, ok := x.Cond.(*ssa.BinOp); ok && (bo.Op == token.NEQ || bo.Op == token.EQL) {
+						v := resolve(bo.X, np)
+						o := bo.Y
+						if k, isC := o.(*ssa.Const); isC && k.Value == nil {
+							known, isNil := false, false
+							if isFlushFn(v) {
+								known, isNil = true, false
+							} else if kc, isC2 := v.(*ssa.Const); isC2 && kc.Value == nil {
+								known, isNil = true, true
+							}
+							if known {
+								takeTrue := (bo.Op == token.NEQ) != isNil
+								if takeTrue {
+									walk(b.Succs[0], b, np, st, visits)
+								} else {
+									walk(b.Succs[1], b, np, st, visits)
+								}
+								return
+							}
+						}
+					}
+				}
+			}
+			for _, s := range b.Succs {
+				walk(s, b, np, st, visits)
+			}
+		}
+		walk(fn.Blocks[0], nil, map[*ssa.Phi]ssa.Value{}, pstate{}, map[*ssa.BasicBlock]int{})
+		if paths == 0 || paths > 20000 {
+			c.undecided(key, fn.Pos(), "the paths of %s could not be enumerated (%d)", fnKey(fn), paths)
+			continue
+		}
+		c.check(bad == token.NoPos, key, posOr(bad, fn.Pos()), fmt.Sprintf("the scratch buffered writer around the destination is flushed on every one of the %d paths that can report success", paths),
+			fnKey(fn)+" wraps the destination it is given in a buffered writer of its own and can return success without flushing it: the record stays in the scratch buffer and is dropped by the next Reset (or never written), so output to a file or command loses that record")
+	}
+	c.atLeast("functions that wrap their destination in a scratch buffered writer", n, 1)
+}
+
+// csvSoleWriter: in CSV/TSV output mode every record text is produced by the one CSV writer function: a function
+// that consults the output mode and calls writeCSV has no way out of its CSV/TSV branch that bypasses the call
+// (a shortcut that joins the fields itself loses the quoting rules - and the special case of the record made of one
+// empty field, which must be written as "" to be read back as a record at all).
+func csvSoleWriter(c *Ctx) {
+	ip := c.pkg("interp")
+	if ip == nil {
+		return
+	}
+	modeVals := map[int64]string{}
+	for _, nm := range []string{"CSVMode", "TSVMode"} {
+		if k, ok := ip.Types.Scope().Lookup(nm).(*types.Const); ok {
+			if v, ok := constant.Int64Val(k.Val()); ok {
+				modeVals[v] = nm
+			}
+		}
+	}
+	if len(modeVals) != 2 {
+		c.undecided("anchor:CSVMode", token.NoPos, "constants CSVMode/TSVMode not found in package interp")
+		return
+	}
+	n := 0
+	for _, fn := range c.srcFuncs("interp") {
+		fn := fn
+		var writeBlocks = map[*ssa.BasicBlock]bool{}
+		var entries []*ssa.BasicBlock
+		for _, b := range fn.Blocks {
+			for _, in := range b.Instrs {
+				if callsNamed(in, "writeCSV") {
+					writeBlocks[b] = true
+				}
+			}
+			if len(b.Instrs) == 0 {
+				continue
+			}
+			iff, ok := b.Instrs[len(b.Instrs)-1].(*ssa.If)
+			if !ok {
+				continue
+			}
+			bo, ok := iff.Cond.(*ssa.BinOp)
+			if !ok || (bo.Op != token.EQL && bo.Op != token.NEQ) {
+				continue
+			}
+			var k *ssa.Const
+			var other ssa.Value
+			if kc, isC := bo.Y.(*ssa.Const); isC {
+				k, other = kc, bo.X
+			} else if kc, isC := bo.X.(*ssa.Const); isC {
+				k, other = kc, bo.Y
+			}
+			if k == nil || k.Value == nil || k.Value.Kind() != constant.Int {
+				continue
+			}
+			if f, _ := loadedField(other); f == nil || f.Name() != "outputMode" {
+				continue
+			}
+			if _, isMode := modeVals[k.Int64()]; !isMode {
+				continue
+			}
+			if bo.Op == token.EQL {
+				entries = append(entries, b.Succs[0])
+			} else {
+				entries = append(entries, b.Succs[1])
+			}
+		}
+		if len(entries) == 0 || len(writeBlocks) == 0 {
+			continue
+		}
+		n++
+		bad := token.NoPos
+		seen := map[*ssa.BasicBlock]bool{}
+		var walk func(b *ssa.BasicBlock)
+		walk = func(b *ssa.BasicBlock) {
+			if seen[b] || writeBlocks[b] {
+				return
+			}
+			seen[b] = true
+			// another test of the mode (the switch's next case) is not a way out
+			if len(b.Instrs) > 0 {
+				if r, ok := b.Instrs[len(b.Instrs)-1].(*ssa.Return); ok {
+					plain := false
+					for _, v := range r.Results {
+						if types.TypeString(v.Type(), nil) != "error" {
+							plain = true
+						} else if k, isC := v.(*ssa.Const); isC && k.Value == nil {
+							plain = true
+						}
+					}
+					if (plain || len(r.Results) == 0) && bad == token.NoPos {
+						bad = posOr(r.Pos(), fn.Pos())
+					}
+					return
+				}
+			}
+			for _, s := range b.Succs {
+				walk(s)
+			}
+		}
+		for _, e := range entries {
+			walk(e)
+		}
+		c.check(bad == token.NoPos, "csv-writer:sole:"+fnKey(fn), posOr(bad, fn.Pos()), "in CSV/TSV output mode every way out passes the CSV writer function",
+			fnKey(fn)+" has a way out of its CSV/TSV branch that does not pass writeCSV: the record text is produced by other means there, without the writer's quoting rules and without the \"\" it writes for a record made of one empty field - such a record is rebuilt or printed as an empty line, which the CSV reader skips, so it is not read back")
+	}
+	c.atLeast("functions that hand CSV/TSV-mode output to the CSV writer", n, 2)
 }
